@@ -17,6 +17,7 @@
 EXTENDS Stats, Json, IOUtils
 
 Items == JsonDeserialize(IOEnv.VERIF_TRACES)
+NoSched == <<>>        \* every item carries its own schedule
 SeqToSet(s) == {s[j] : j \in 1..Len(s)}
 
 VARIABLES i, seen
